@@ -57,8 +57,34 @@ func checkFor(t *testing.T, r Row) module.Check {
 	return c
 }
 
+// fileRow runs a row of family H (file_test.go): message, edit + reload, message again.
+func fileRow(t *testing.T, r Row, run func(ref string, first bool) Out) Out {
+	ft := newFileTable(t, r)
+	defer ft.close()
+	run(ft.ref, true)
+	ft.edit(t, r)
+	return run(ft.ref, false)
+}
+
 func direct(t *testing.T, r Row) Out {
-	c := checkFor(t, r)
+	if isFileTbl(r.Tbl) {
+		var c module.Check
+		return fileRow(t, r, func(ref string, first bool) Out {
+			if first {
+				m, err := authkit.InitFromText("check.authorize_sender", "c15chk_"+ref, nil,
+					checkConfig(r.Tbl, r.Norm, r.Chk, r.Act, ref))
+				if err != nil {
+					t.Fatalf("authorize_sender init (file): %v", err)
+				}
+				c = m.(module.Check)
+			}
+			return directOn(t, c, r)
+		})
+	}
+	return directOn(t, checkFor(t, r), r)
+}
+
+func directOn(t *testing.T, c module.Check, r Row) Out {
 	ctx := context.Background()
 	meta := &module.MsgMetadata{ID: "verif", Conn: &module.ConnState{AuthUser: User(r.Auth), Proto: "ESMTP"}}
 	st, err := c.CheckStateForMsg(ctx, meta)
@@ -162,8 +188,13 @@ func neighbourBlock(nb string) string {
 }
 
 func endpointFor(t *testing.T, kind string, r Row) *endpoint {
+	return endpointWith(t, kind, r, "")
+}
+
+// endpointWith: fileRef != "" builds a private endpoint whose check refers to that table.file instance.
+func endpointWith(t *testing.T, kind string, r Row, fileRef string) *endpoint {
 	tbl, norm := r.Tbl, r.Norm
-	k := fmt.Sprintf("%s/%s/%s/%v/%s/%s", kind, tbl, norm, r.Chk, r.Nb, r.Act)
+	k := fmt.Sprintf("%s/%s/%s/%v/%s/%s/%s", kind, tbl, norm, r.Chk, r.Nb, r.Act, fileRef)
 	if e, ok := endpoints[k]; ok {
 		return e
 	}
@@ -196,7 +227,7 @@ func endpointFor(t *testing.T, kind string, r Row) *endpoint {
 		text += "auth &c15auth\nsasl_login yes\n"
 	}
 	text += "check {\n    authorize_sender {\n"
-	for _, l := range strings.Split(strings.TrimSpace(CheckConfig(tbl, norm, r.Chk, r.Act)), "\n") {
+	for _, l := range strings.Split(strings.TrimSpace(checkConfig(tbl, norm, r.Chk, r.Act, fileRef)), "\n") {
 		text += "        " + l + "\n"
 	}
 	text += "    }\n" + neighbourBlock(r.Nb) + "}\ndeliver_to &" + sk.inst + "\n"
@@ -224,7 +255,28 @@ func viaEndpoint(t *testing.T, r Row) Out {
 	if r.Auth.A == "none" {
 		kind = "smtp" // a submission endpoint refuses MAIL outright; the check's own rule is reached on port 25
 	}
-	e := endpointFor(t, kind, r)
+	if isFileTbl(r.Tbl) {
+		var e *endpoint
+		out := fileRow(t, r, func(ref string, first bool) Out {
+			if first {
+				e = endpointWith(t, kind, r, ref)
+			}
+			return converse(t, e, r)
+		})
+		e.ln.Close()
+		e.endp.Close()
+		for k, v := range endpoints {
+			if v == e {
+				delete(endpoints, k)
+			}
+		}
+		return out
+	}
+	return converse(t, endpointFor(t, kind, r), r)
+}
+
+// converse: one connection - EHLO, AUTH, MAIL, RCPT, DATA.
+func converse(t *testing.T, e *endpoint, r Row) Out {
 	c, err := e.ln.Dial()
 	if err != nil {
 		t.Fatal(err)
@@ -311,6 +363,9 @@ func TestReplay(t *testing.T) {
 		var row In
 		if err := json.Unmarshal(sc.Bytes(), &row); err != nil {
 			t.Fatalf("bad row: %v", err)
+		}
+		if row.In.Edit == "" {
+			row.In.Edit = "none" // rows stored before the field existed
 		}
 		var o Out
 		switch row.Via {
